@@ -160,10 +160,38 @@ func runEnumIdx[T comparable](c *core.Ctx, e *enumIdx[T], d *Dom[T], mapf []func
 			}
 		}
 	}
+	// In half of the cases the callbacks READ the receiver while the enumerable
+	// call is still running (another enumerable call, an iterator walk, Size,
+	// Values): pure, but re-entrant. An enumerable function that keeps its
+	// traversal state in the container instead of on its own stack loses its
+	// place.
+	nested := r.Bool()
+	ncalls := 0
+	reenter := func() {
+		ncalls++
+		if !nested || ncalls%3 != 1 {
+			return
+		}
+		switch ncalls / 3 % 4 {
+		case 0:
+			e.E.Any(func(int, T) bool { return false })
+		case 1:
+			e.E.Find(func(i int, _ T) bool { return i == 1 })
+		case 2:
+			for it := e.iter(); it.Next(); {
+			}
+		default:
+			e.C.Size()
+			e.C.Values()
+		}
+	}
+	if nested {
+		c.Count("obs:re-entrant-callbacks", 1)
+	}
 	// Each: exactly the iterator's pairs, in order, once each
 	c.Begin(kind, "Each")
 	var log []idxPair[T]
-	e.E.Each(func(i int, v T) { log = append(log, idxPair[T]{i, v}) })
+	e.E.Each(func(i int, v T) { reenter(); log = append(log, idxPair[T]{i, v}) })
 	if len(log) != n {
 		c.Fail("each", "count", "%s.Each made %d calls, the iterator yields %d elements", kind, len(log), n)
 	}
@@ -188,6 +216,8 @@ func runEnumIdx[T comparable](c *core.Ctx, e *enumIdx[T], d *Dom[T], mapf []func
 				all = false
 			}
 		}
+		pure := f
+		f = func(i int, v T) bool { reenter(); return pure(i, v) }
 		c.Begin(kind, "Any", pk, pp)
 		if got := e.E.Any(f); got != exists {
 			c.Fail("any", "", "%s.Any(pred %d/%d) = %v, exists over the iteration = %v (%v)", kind, pk, pp, got, exists, w)
@@ -216,7 +246,7 @@ func runEnumIdx[T comparable](c *core.Ctx, e *enumIdx[T], d *Dom[T], mapf []func
 		res := e.sel(f)
 		var want []T
 		for _, p := range w {
-			if f(p.I, p.V) {
+			if pure(p.I, p.V) {
 				want = append(want, p.V)
 			}
 		}
@@ -233,7 +263,7 @@ func runEnumIdx[T comparable](c *core.Ctx, e *enumIdx[T], d *Dom[T], mapf []func
 		// Map
 		mi := r.Intn(len(mapf))
 		c.Begin(kind, "Map", mapNames[mi])
-		mres := e.mp(mapf[mi])
+		mres := e.mp(func(i int, v T) T { reenter(); return mapf[mi](i, v) })
 		oracle := e.fresh()
 		for _, p := range w {
 			oracle.add(mapf[mi](p.I, p.V))
@@ -411,9 +441,34 @@ func runEnumKey(c *core.Ctx, e *enumKey[int, int], d *Dom[int]) {
 			}
 		}
 	}
+	// re-entrant (pure) callbacks, as in runEnumIdx
+	nested := c.R.Bool()
+	ncalls := 0
+	reenter := func() {
+		ncalls++
+		if !nested || ncalls%3 != 1 {
+			return
+		}
+		switch ncalls / 3 % 4 {
+		case 0:
+			e.E.Any(func(int, int) bool { return false })
+		case 1:
+			e.E.All(func(int, int) bool { return true })
+		case 2:
+			for it := e.iter(); it.Next(); {
+			}
+		default:
+			e.M.Size()
+			e.M.Keys()
+			e.M.Get(6)
+		}
+	}
+	if nested {
+		c.Count("obs:re-entrant-callbacks", 1)
+	}
 	c.Begin(kind, "Each")
 	var log []kvPair[int, int]
-	e.E.Each(func(k, v int) { log = append(log, kvPair[int, int]{k, v}) })
+	e.E.Each(func(k, v int) { reenter(); log = append(log, kvPair[int, int]{k, v}) })
 	if len(log) != n {
 		c.Fail("each", "count", "%s.Each made %d calls, the iterator yields %d pairs", kind, len(log), n)
 	}
@@ -455,6 +510,8 @@ func runEnumKey(c *core.Ctx, e *enumKey[int, int], d *Dom[int]) {
 				all = false
 			}
 		}
+		pure := f
+		f = func(k, v int) bool { reenter(); return pure(k, v) }
 		c.Begin(kind, "Any", pi)
 		if got := e.E.Any(f); got != exists {
 			c.Fail("any", "", "%s.Any(pred %d) = %v, exists over the iteration = %v", kind, pi, got, exists)
@@ -481,7 +538,7 @@ func runEnumKey(c *core.Ctx, e *enumKey[int, int], d *Dom[int]) {
 		res := e.sel(f)
 		oracle := e.fresh()
 		for _, p := range w {
-			if f(p.K, p.V) {
+			if pure(p.K, p.V) {
 				oracle.M.Put(p.K, p.V)
 			}
 		}
@@ -496,7 +553,7 @@ func runEnumKey(c *core.Ctx, e *enumKey[int, int], d *Dom[int]) {
 		c.Count("obs:Select", 1)
 		mi := r.Intn(len(mapfs))
 		c.Begin(kind, "Map", mapNames[mi])
-		mres := e.mp(mapfs[mi])
+		mres := e.mp(func(k, v int) (int, int) { reenter(); return mapfs[mi](k, v) })
 		oracle = e.fresh()
 		for _, p := range w {
 			oracle.M.Put(mapfs[mi](p.K, p.V))
@@ -816,6 +873,7 @@ func init() {
 			f.atLeast("obs:Find-match", 5000)
 			f.atLeast("obs:Find-no-match", 5000)
 			f.atLeast("obs:huge-enumerable-cases", hugeEnumCases)
+			f.atLeast("obs:re-entrant-callbacks", 10000)
 			for _, k := range enumKinds {
 				f.atLeast("call:"+k+".Map", 1000)
 			}
@@ -823,7 +881,7 @@ func init() {
 		},
 		Files: []string{"lists/arraylist/enumerable.go", "lists/singlylinkedlist/enumerable.go", "lists/doublylinkedlist/enumerable.go", "sets/treeset/enumerable.go", "sets/linkedhashset/enumerable.go", "maps/treemap/enumerable.go", "maps/linkedhashmap/enumerable.go", "maps/treebidimap/enumerable.go"},
 		Assumptions: []string{
-			"callbacks are pure; the number of callback invocations made by Any/All/Find is not constrained",
+			"callbacks are pure (in half of the cases they read the receiver re-entrantly); the number of callback invocations made by Any/All/Find is not constrained",
 			"the oracle for Select/Map results is a fresh container of the library's own kind (its map/set semantics are the business of C01-C10)",
 			"a clean run says the property held on the executed states and functions only",
 		},
